@@ -4,6 +4,7 @@ pub mod c03;
 pub mod c06;
 pub mod c07;
 pub mod c08;
+pub mod c09;
 pub mod c10;
 
 use crate::engine::Prop;
@@ -16,6 +17,7 @@ pub fn get(id: &str) -> Option<Box<dyn Prop>> {
     "C06" => Some(Box::new(c06::C06)),
     "C07" => Some(Box::new(c07::C07)),
     "C08" => Some(Box::new(c08::C08)),
+    "C09" => Some(Box::new(c09::C09)),
     "C10" => Some(Box::new(c10::C10)),
     _ => None,
   }
